@@ -127,4 +127,32 @@ Find(tree, path, prefix) ==
       RECURSIVE Walk(_)
       Walk(i) == IF i > Len(tree) THEN <<>> ELSE hits(i) \o Walk(i + 1)
   IN Walk(1)
+\* ------------------------------------------------------------------ well-formed payloads (decode side)
+\* PayloadOk(k, p): the octets p are a payload of the data format k (RFC 6733 4.2, 4.3).  Everything else is "malformed
+\* for its type": reading the value of such an AVP must raise the decode error (C04).  Grouped payloads are the cursor
+\* machine's subject (Unpack.tla); OctetString and unknown formats accept every payload.
+Cont(b) == b >= 128 /\ b <= 191
+RECURSIVE Utf8Ok(_)
+Utf8Ok(p) ==
+  IF p = <<>> THEN TRUE
+  ELSE LET b == p[1]
+           n == Len(p)
+       IN IF b < 128 THEN Utf8Ok(Tail(p))
+          ELSE IF b >= 194 /\ b <= 223 THEN n >= 2 /\ Cont(p[2]) /\ Utf8Ok(SubSeq(p, 3, n))
+          ELSE IF b >= 224 /\ b <= 239
+               THEN n >= 3 /\ Cont(p[2]) /\ Cont(p[3]) /\ (b = 224 => p[2] >= 160) /\ (b = 237 => p[2] <= 159) /\ Utf8Ok(SubSeq(p, 4, n))
+          ELSE IF b >= 240 /\ b <= 244
+               THEN n >= 4 /\ Cont(p[2]) /\ Cont(p[3]) /\ Cont(p[4]) /\ (b = 240 => p[2] >= 144) /\ (b = 244 => p[2] <= 143) /\ Utf8Ok(SubSeq(p, 5, n))
+          ELSE FALSE
+PayloadOk(k, p) ==
+  CASE k \in {"i32", "u32", "f32", "time"} -> Len(p) = 4
+    [] k \in {"i64", "u64", "f64"}          -> Len(p) = 8
+    [] k = "utf8"                            -> Utf8Ok(p)
+    [] k = "addr"                            -> /\ Len(p) >= 2
+                                                /\ LET fam == p[1] * 256 + p[2] IN
+                                                   CASE fam = 1 -> Len(p) = 6        \* IPv4
+                                                     [] fam = 2 -> Len(p) = 18       \* IPv6
+                                                     [] fam = 8 -> Utf8Ok(SubSeq(p, 3, Len(p)))   \* E.164 digits are text
+                                                     [] OTHER   -> TRUE              \* other families: opaque
+    [] OTHER                                 -> TRUE
 =============================================================================
